@@ -21,7 +21,9 @@ EXPLANATION = (
     "lax.scan bodies are proved inductively (greatest fixed point over {overlap, greens, free-projection} "
     "invariants), so all block/step/SR histories the sampler and driver can generate are covered at once. "
     "TS-0: step functions are only invoked from the sampler's step scans, and the driver only hands "
-    "prop_data to sampler entry points, each of which refreshes the cache before its first scan."
+    "prop_data to sampler entry points, each of which refreshes the cache before its first scan. "
+    "The entry refresh evaluates the overlap with the same wave_data term the blocks propagate with (a "
+    "refresh placed before the trial relaxation is coherent with another trial). "
 )
 NOT_DECIDED = (
     "floating-point equality with a step-by-step replay (follows from the invariant plus determinism); "
